@@ -292,6 +292,11 @@ func handleServerKeyExchange(
 		if psk, err = cfg.LocalPSKCallback(bytes.Clone(keyExchangeMessage.IdentityHint)); err != nil {
 			return &alert.Alert{Level: alert.Fatal, Description: alert.InternalError}, err
 		}
+		if len(psk) == 0 {
+			// An empty key is what a lookup of an unknown identity yields; with
+			// it the pre-master secret would be public.
+			return &alert.Alert{Level: alert.Fatal, Description: alert.InternalError}, dtlserrors.ErrIdentityNoPSK
+		}
 		state.IdentityHint = bytes.Clone(keyExchangeMessage.IdentityHint)
 		switch state.CipherSuite.KeyExchangeAlgorithm() {
 		case ciphersuite.KeyExchangeAlgorithmPsk:
